@@ -278,12 +278,27 @@ func (s Schema) MarshalJSON() ([]byte, error) {
 		Properties   json.Marshaler `json:"properties,omitempty"`
 		Dependencies map[string]any `json:"dependencies,omitempty"`
 		Items        any            `json:"items,omitempty"`
+		Enum         any            `json:"enum,omitempty"`
+		AnyOf        any            `json:"anyOf,omitempty"`
+		OneOf        any            `json:"oneOf,omitempty"`
 		*schemaWithoutMethods
 	}{
 		Type:                 typ,
 		Dependencies:         dep,
 		Items:                items,
 		schemaWithoutMethods: (*schemaWithoutMethods)(&s),
+	}
+	// An empty but non-nil enum, anyOf or oneOf rejects every instance, so it
+	// must be marshaled. omitempty drops an empty slice, but keeps a non-nil
+	// interface that holds one.
+	if s.Enum != nil {
+		ms.Enum = s.Enum
+	}
+	if s.AnyOf != nil {
+		ms.AnyOf = s.AnyOf
+	}
+	if s.OneOf != nil {
+		ms.OneOf = s.OneOf
 	}
 	// Marshal properties, even if the empty map (but not nil).
 	if s.Properties != nil {
